@@ -1,7 +1,7 @@
 (* Extract.v — extraction of the executable models to OCaml for the correspondence
    checks. ExtrOcamlBasic only: bool/option/list/prod/unit/sumbool map to OCaml's;
    nat, positive, N, Z stay inductive. No Extract Constant / Extract Inductive of our own. *)
-Require Import KV.Base KV.ConfigModel KV.EstimatorModel KV.GhostModel KV.HtableModel KV.CacheModel KV.HttpModel KV.HttpTrie KV.LinCheck KV.KeyHash.
+Require Import KV.Base KV.ConfigModel KV.EstimatorModel KV.GhostModel KV.HtableModel KV.CacheModel KV.HttpModel KV.HttpTrie KV.LinCheck KV.KeyHash KV.HtableLts.
 Require Import ExtrOcamlBasic.
 
 (* arithmetic the driver needs for decimal <-> Z conversion *)
@@ -19,6 +19,7 @@ Definition run_stream (sid : Z) (cfg : list Z) (ops : list (list Z)) : list (lis
   else if sid =? 2 then run_out lin_step tt ops
   else if sid =? 21 then run_out lin_chain_step [None] ops
   else if sid =? 17 then run_out reg_step reg_init ops
+  else if sid =? 121 then run_out htl_step (htl_init cfg) ops
   else if sid =? 12 then run_out ht_step (ht_init cfg) ops
   else if sid =? 191 then run_out ghost_step (ghost_init cfg) ops
   else [].
